@@ -358,6 +358,34 @@ func runC14(c *Ctx) {
 			}
 			if hasCounter && hasBudget && exits {
 				budgetBlocks = append(budgetBlocks, b)
+				// the counter is compared with the budget, not combined with it first: `budget - tries < 0` wraps for
+				// the most negative budget and never stops (finding F25)
+				for _, opnd := range []ssa.Value{bo.X, bo.Y} {
+					ar, ok := opnd.(*ssa.BinOp)
+					if !ok || (ar.Op != token.SUB && ar.Op != token.ADD) {
+						continue
+					}
+					side := func(v ssa.Value) (ctr, bud bool) {
+						l2 := flow.NewSlicer(c.P)
+						l2.Visit(v, func(w ssa.Value) bool {
+							for _, k := range counters {
+								if w == k {
+									ctr = true
+									return false
+								}
+							}
+							if retriesLoad(w) {
+								bud = true
+							}
+							return true
+						}, nil)
+						return
+					}
+					xc, xb := side(ar.X)
+					yc, yb := side(ar.Y)
+					mixes := (xc && yb) || (xb && yc)
+					c.S.Check(!mixes, "R2", "endorse.RetrySubmit:budget arithmetic", c.pos(ar.Pos()), "counter and budget are compared directly", "the exit test is on `budget "+ar.Op.String()+" counter`: for the most negative (or largest) budget the arithmetic wraps and the test never fires — retries without bound")
+				}
 			}
 		}
 		// the comparison may sit in a helper that returns the error which ends the submission (nil = try again):
